@@ -78,6 +78,9 @@ func (f *frame) atCallAsserts(cc *ssa.CallCommon, pos token.Pos) (matched []*AtC
 		for i, a := range cc.Args { // arg0, arg1, ...: the call's arguments (receiver excluded for interface calls)
 			env.vars[fmt.Sprintf("arg%d", i)] = f.sval(f.get(a), a.Type())
 		}
+		if cc.IsInvoke() { // recv: the interface value the method is invoked on
+			env.vars["recv"] = f.sval(f.get(cc.Value), cc.Value.Type())
+		}
 		for i, cl := range ac.Asserts {
 			g := f.obligeClause("assert", fmt.Sprintf("%s#at:%s#%d.assert%d", shortFn(f.c.fn), ac.Callee, ac.Ordinal, i+1), env, cl, f.guard, f.pos(pos), false)
 			f.c.assume(implies(f.guard, g))
@@ -98,6 +101,24 @@ func (f *frame) pointEnv(heap *heapState) *specEnv {
 		}
 		if found, ok := f.lookupLocal(name, at); ok {
 			return f.sval(f.get(found), found.Type()), true
+		}
+		// idx<N>: the current index of range loop N (inside its body)
+		if strings.HasPrefix(name, "idx") {
+			var n int
+			if _, err := fmt.Sscanf(name, "idx%d", &n); err == nil {
+				for _, l2 := range f.loops {
+					if l2.ordinal != n {
+						continue
+					}
+					for _, in := range l2.header.Instrs {
+						if p, ok := in.(*ssa.Phi); ok && p.Comment == "rangeindex" {
+							if have, ok := f.vals[p].(Term); ok {
+								return SVal{T: add(have, tOne), GoT: p.Type()}, true
+							}
+						}
+					}
+				}
+			}
 		}
 		return SVal{}, false
 	}
